@@ -193,6 +193,8 @@ class HandleResponse(Contract):
 
 
 CONTRACTS = [HandleRedirect, HandleResponse]
+for _k in CONTRACTS:
+    _k.replay_decides = False  # URI resolution / parsing are uninterpreted functions: the solver's counterexample includes their interpretation
 BOUNDED = bounded("C27")
 _SCOPE = ("real RedirectAgent / BrowserLikeRedirectAgent over a fake inner agent: one-hop resolution over a grammar of Location values (RFC 3986 5.4 shapes x schemes x authorities x queries x fragments) on 8 base URIs, chains of length 0..3 (thorough 4) over 12 Locations plus random chains up to 8, every status sequence up to length 4 x 5 methods x 5 limits, credential headers (all spellings, configured names) over chains across 13 origins; oracle: an RFC 3986 5.2 resolver written from the RFC, RFC 6454 origins, the agents' documented method rules")
 NOTES = dict(explanation="_handleRedirect / _handleResponse proved over uninterpreted URI resolution and parsing; real resolution and chains bounded: " + _SCOPE,
